@@ -162,7 +162,9 @@ def run_impl(spec):
                     mon.append({"signature": f"c13:scheduler-raises-after-failure:{name}:{e[1]}:{e[2]}",
                                 "what": f"{name}: {e[1]} raised {e[2]} after {len(failed)} trial failure(s)", "detail": {"trace_tail": ev[-6:]}})
             elif e[0] == "suggest" and e[1] == "resume" and e[2] in failed:
-                mon.append({"signature": f"c13:failed-trial-resumed:{name}", "what": f"{name}: failed trial {e[2]} is resumed",
+                # synchronous brackets (also DEHB's) fill a short rung up with failed trials: the known finding of C05
+                sig = "c05:failed-trial-promoted" if name in ("sync-hb", "dehb") else f"c13:failed-trial-resumed:{name}"
+                mon.append({"signature": sig, "what": f"{name}: failed trial {e[2]} is resumed",
                             "detail": {"trace_tail": ev[-6:]}})
             elif e[0] == "result" and seen_fail:
                 later = True
